@@ -123,7 +123,10 @@ Prog == <<
   \* the error in the second or a later link of a member chain (the links already built must be released, once)
   BadText("Z = \"abc\".concat(\"d\").foo();", {}), BadText("W = tab(2, 0); Z = W.at(0).foo();", {}), BadText("W = tab(2, tab(1, 1)); W.at(0).concat(\"y\");", {}),
   BadText("Z = \"abc\".concat(\"d\").at(1, 2);", {}), BadText("Z = \"abc\".concat(\"d\")@1;", {}), BadText("W = tab(2, tab(1, 1)); W.at(0).at(0).at(0);", {}),
-  BadText("Z = tup(1, \"a\")@2.concat(\"b\").concat(;", {}), BadText("W = tab(2, 0); print W.count().foo();", {})
+  BadText("Z = tup(1, \"a\")@2.concat(\"b\").concat(;", {}), BadText("W = tab(2, 0); print W.count().foo();", {}),
+  \* (79, 80) a handler that itself raises: the run fails, and the context is as usable afterwards as after any failing run
+  PG(<<Begin(<<RaiseS("E1")>>, <<When("E1", <<PrintS(<<Str("h")>>), RaiseS("BANG")>>)>>), PrintS(<<Str("never")>>)>>, {}, {}),
+  PG(<<For("I", I(1), I(2), NoExpr, "asc", <<Begin(<<Let("X", Bin("/", V("X"), I(0)))>>, <<When("OTHERS", <<RaiseS("AGAIN")>>)>>)>>), PrintS(<<Str("never")>>)>>, {"X"}, {"I"})
 >>
 FuncNames == {"F()", "G()"}
 ProgText(p) == IF Prog[p].bad THEN Prog[p].text ELSE Render(Prog[p].ast)
